@@ -50,13 +50,20 @@ func (x *Exec) callMergedMode(fn *ssa.Function, args []Value, env []Value, site 
 		x.pc = x.pc[:pcLen]
 		x.stack = x.stack[:stackLen]
 		var val Value
-		aborted := false
+		aborted, dead := false, false
 		func() {
 			defer func() {
 				if r := recover(); r != nil {
-					switch r.(type) {
+					switch rr := r.(type) {
 					case *targetPanic, mergeAbort:
 						aborted = true
+					case pathEnd:
+						// an unchecked (lazy) local path turned out to be infeasible
+						if rr.reason == "infeasible" {
+							dead = true
+							return
+						}
+						panic(r)
 					default:
 						panic(r)
 					}
@@ -68,8 +75,11 @@ func (x *Exec) callMergedMode(fn *ssa.Function, args []Value, env []Value, site 
 			x.inputs = x.inputs[:nin]
 			return nil, false
 		}
-		results = append(results, pathRes{cond: x.C.And(x.pc[pcLen:]...), val: val})
 		work = append(work, x.sc.forks...)
+		if dead {
+			continue
+		}
+		results = append(results, pathRes{cond: x.C.And(x.pc[pcLen:]...), val: val})
 		if len(results) > 256 {
 			return nil, false
 		}
